@@ -46,7 +46,7 @@ def valid_case(rng, several=False):
     return case
 
 
-FAULTS = ["zero-wire-pitch", "axial-regions-cover-core", "power-wrong-count-later-assembly", "power-short-later-assembly", "duct-zero-wall", "pins-do-not-fit", "wire-too-thick", "clad-too-thick", "zero-pin-pitch", "negative-pin-diameter", "zero-duct-ftf",
+FAULTS = ["spacergrid-cdd-coeff-count", "spacergrid-no-position-in-bundle", "zero-wire-pitch", "axial-regions-cover-core", "power-wrong-count-later-assembly", "power-short-later-assembly", "duct-zero-wall", "pins-do-not-fit", "wire-too-thick", "clad-too-thick", "zero-pin-pitch", "negative-pin-diameter", "zero-duct-ftf",
           "duct-ge-pitch", "unequal-outer-ducts", "axial-regions-overlap", "axial-region-inverted", "missing-bc", "negative-flowrate",
           "unknown-material", "unknown-correlation", "negative-power", "power-gap-between-cells", "power-wrong-pin-count",
           "flow-gap-no-bypass", "zero-core-length", "odd-duct-values", "zero-step-request"]
@@ -109,6 +109,25 @@ def inject(rng, case, fault, lowfid=False, near=False, excess=0.01):
         L = c['core']['length']
         t['AxialRegion'] = [dict(name='lower', z_lo=0.0, z_hi=0.6 * L, vf_coolant=0.3, model='simple'),
                             dict(name='upper', z_lo=0.5 * L, z_hi=L, vf_coolant=0.3, model='simple')]
+    elif fault in ("spacergrid-cdd-coeff-count", "spacergrid-no-position-in-bundle"):
+        if t.get('use_low_fidelity_model'):
+            return None
+        L = c['core']['length']
+        lo = max([r_['z_hi'] for r_ in t.get('AxialRegion') or [] if r_['name'] == 'lower'] + [0.0])
+        hi = min([r_['z_lo'] for r_ in t.get('AxialRegion') or [] if r_['name'] == 'upper'] + [L])
+        inside = [round(lo + (hi - lo) * f, 4) for f in (0.3, 0.6)]
+        if fault == "spacergrid-cdd-coeff-count":
+            # the CDD loss correlation takes exactly seven coefficients; with or without an explicit solidity
+            sg = dict(corr='CDD', corr_coeff=[round(rng.uniform(0.1, 2.0), 3) for _ in range(rng.choice([3, 5, 6]))],
+                      axial_positions=inside)
+            if rng.random() < 0.6:
+                sg['solidity'] = round(rng.uniform(0.2, 0.4), 3)
+        else:
+            if not (t.get('AxialRegion')):
+                return None
+            outside = [round(0.5 * lo, 4)] if lo > 0 else [round(0.5 * (hi + L), 4)]
+            sg = dict(loss_coeff=1.1, axial_positions=outside)
+        t['SpacerGrid'] = sg
     elif fault == "zero-wire-pitch":
         # a wire of positive diameter that never winds round the pin (both zero = bare rods is a valid input)
         if t.get('use_low_fidelity_model') or t['wire_diameter'] <= 0:
